@@ -273,7 +273,8 @@ class Engine:
         for flt in HYP_FILTERS:  # an extension may DROP hypotheses that cannot matter for this goal (fewer hypotheses: always sound)
             hyps = flt(self, hyps, goal)
         self.obligs.append(Oblig(name, hyps, goal, kind, note))
-        self.pc.append(goal)
+        if not z3.is_false(g):  # a goal that is literally False (a forbidden write, an unexpected exception) is reported, not assumed:
+            self.pc.append(goal)  # the rest of the path is then still checked against a consistent path condition
 
     def visible_vars(self):
         d = {}
